@@ -112,20 +112,76 @@ def sep_table(ra1, dec1, ra2, dec2):
             for i in range(ra1.size)]
 
 
+def laid(values, dtype, layout):
+    """a 1-D coordinate array holding `values` with the requested memory layout / byte order (round 6, class B)"""
+    dt = np.dtype(dtype)
+    n = len(values)
+    if layout in (None, 'contig'):
+        return np.array(values, dtype=dt)
+    if layout == 'strided':                      # every other element of a buffer whose other elements are junk
+        buf = np.full(2 * n + 1, 77, dtype=dt)
+        buf[1::2] = values
+        return buf[1::2]
+    if layout == 'reversed':                     # negative stride
+        return np.array(list(values)[::-1], dtype=dt)[::-1]
+    if layout == 'col2d':                        # a column of a C-ordered 2-D table (catalogue[:, k])
+        m = np.full((n, 3), 55, dtype=dt)
+        m[:, 1] = values
+        return m[:, 1]
+    if layout == 'fortran-row':                  # a row of a Fortran-ordered table
+        m = np.asfortranarray(np.full((2, n), 33, dtype=dt))
+        m[1, :] = values
+        return m[1, :]
+    if layout == 'bigendian':
+        return np.array(values, dtype=dt.newbyteorder('>'))
+    if layout == 'readonly':
+        a = np.array(values, dtype=dt)
+        a.flags.writeable = False
+        return a
+    raise ValueError('unknown layout %r' % (layout,))
+
+
+def scalar(v, kind):
+    """the scalar arguments (matchlength, chunksize, maxmatch) in the Python / NumPy type the case asks for (class E)"""
+    if kind in (None, 'float', 'explicit-None'):     # (explicit-None: limit_cost replaced the None by a number)
+        return float(v)
+    if kind == 'int':
+        return int(v)
+    if kind == 'bool':
+        return bool(v)
+    if kind == '0-d':
+        return np.array(v)
+    if kind == '0-d-float':
+        return np.array(float(v))
+    if kind == '1-elem':
+        return np.array([float(v)])
+    return getattr(np, kind)(v)                  # float64, float32, int64, int32, int8, uint8, int16 ...
+
+
 def arrays(c):
     dt = c.get('dtype') or {}
-    ra1, dec1 = np.array(c['ra1'], dtype=dt.get('ra1', 'd')), np.array(c['dec1'], dtype=dt.get('dec1', 'd'))
+    lay = c.get('layout') or {}
+    mk = lambda k: laid(c[k], dt.get(k, 'd'), lay.get(k))     # noqa: E731
+    ra1, dec1 = mk('ra1'), mk('dec1')
     if c.get('second') == 'same-object':        # the caller passes the very same arrays twice
         return ra1, dec1, ra1, dec1
-    return (ra1, dec1, np.array(c['ra2'], dtype=dt.get('ra2', 'd')), np.array(c['dec2'], dtype=dt.get('dec2', 'd')))
+    return (ra1, dec1, mk('ra2'), mk('dec2'))
+
+
+def call_kw(c):
+    at = c.get('argtypes') or {}
+    kw = {'maxmatch': scalar(c['maxmatch'], at.get('maxmatch', 'int'))}
+    if c.get('chunksize') is not None:
+        kw['chunksize'] = scalar(c['chunksize'], at.get('chunksize'))
+    elif at.get('chunksize') == 'explicit-None':
+        kw['chunksize'] = None
+    return scalar(c['L'], at.get('L')), kw
 
 
 def one(c):
     ra1, dec1, ra2, dec2 = arrays(c)   # dtypes per case (default float64); `second: same-object` passes list 1 twice
     out = {'sep': sep_table(ra1, dec1, ra2, dec2)}
-    kw = {}
-    if c.get('chunksize') is not None:
-        kw['chunksize'] = float(c['chunksize'])
+    L, kw = call_kw(c)
     record = c.get('record', True)
     REC.clear()
     if record:
@@ -134,7 +190,7 @@ def one(c):
     try:
         with warnings.catch_warnings(record=True) as w:
             warnings.simplefilter('always')
-            m1, m2, d12 = SG.spherematch(ra1, dec1, ra2, dec2, float(c['L']), maxmatch=int(c['maxmatch']), **kw)
+            m1, m2, d12 = SG.spherematch(ra1, dec1, ra2, dec2, L, **kw)
         out['ok'] = {'m1': [int(x) for x in m1], 'm2': [int(x) for x in m2], 'd': [float(x) for x in d12]}
         out['warnings'] = [str(x.message)[:80] for x in w]
     except Exception as e:  # noqa: BLE001 -- the error class is the observation
@@ -155,12 +211,10 @@ def one(c):
 
 
 def plain_call(c, ra1, dec1, ra2, dec2):
-    kw = {}
-    if c.get('chunksize') is not None:
-        kw['chunksize'] = float(c['chunksize'])
+    L, kw = call_kw(c)
     with warnings.catch_warnings():
         warnings.simplefilter('ignore')
-        return SG.spherematch(ra1, dec1, ra2, dec2, float(c['L']), maxmatch=int(c['maxmatch']), **kw)
+        return SG.spherematch(ra1, dec1, ra2, dec2, L, **kw)
 
 
 def screen(c):
@@ -187,10 +241,24 @@ def history(calls):
     compared with copies taken before each call"""
     held = []
     out = []
+    prev = None
     for c in calls:
         arrs = arrays(c)
+        reused = None
+        if c.get('reuse') and prev is not None:
+            # class A (round 6): the caller refills the coordinate arrays of the PREVIOUS call in place and passes the same
+            # objects again ('first': ra1/dec1, 'second': ra2/dec2, 'both')
+            idxs = {'first': (0, 1), 'second': (2, 3), 'both': (0, 1, 2, 3)}[c['reuse']]
+            reused = all(prev[k].shape == arrs[k].shape and prev[k].dtype == arrs[k].dtype and prev[k].flags.writeable for k in idxs)
+            if reused:
+                arrs = list(arrs)
+                for k in idxs:
+                    prev[k][...] = arrs[k]
+                    arrs[k] = prev[k]
+                arrs = tuple(arrs)
+        prev = arrs
         before = [a.copy() for a in arrs]
-        r = {'sep': sep_table(*arrs)}
+        r = {'sep': sep_table(*arrs), 'reused': reused}
         try:
             res = plain_call(c, *arrs)
             r['immediate'] = {'m1': [int(x) for x in res[0]], 'm2': [int(x) for x in res[1]], 'd': [float(x) for x in res[2]]}
